@@ -112,16 +112,20 @@ func crashChild(r *rng, n int) {
 			cache.RemoveHTTPCache("c1", []byte(fmt.Sprintf("GET c.test /c/%d", k)))
 			say("purge\t%d\t/c/%d", step, k)
 		default:
-			// several concurrent writers of different keys
-			done := make(chan string, 3)
-			for j := 0; j < 3; j++ {
+			// concurrent writers of all eight keys, released together (their saves to the store overlap)
+			const burst = 8
+			done := make(chan string, burst)
+			start := make(chan struct{})
+			for j := 0; j < burst; j++ {
 				go func(j int) {
+					<-start
 					uri := fmt.Sprintf("/c/%d", (step+j)%8)
 					w := p.do("GET", "c.test", uri, http.Header{}, nil)
 					done <- fmt.Sprintf("resp\t%d\t%s\t%s\t%s\t%s\t%s\t%d\t%d", step, uri, w.Header().Get("X-Status"), w.Header().Get("Age"), w.Body.String(), w.Header().Get("X-Rid"), w.Code, crashNow())
 				}(j)
 			}
-			for j := 0; j < 3; j++ {
+			close(start)
+			for j := 0; j < burst; j++ {
 				say("%s", <-done)
 			}
 		}
